@@ -329,7 +329,7 @@ def history_lines(vals, ksteps):
     return lines
 
 
-def state_lines(vals, ncalls=1):
+def state_lines(vals, ncalls=1, kind_line=None):
     """(alpha(pre), call) of a K2 counterexample, for the state-builder mode of the replay"""
     n = vals.get('h_pre_n', 0)
     g = lambda name, i: vals.get(name, {}).get(i, 0)
@@ -337,6 +337,8 @@ def state_lines(vals, ncalls=1):
     for i in range(n):
         lines.append('e %d %d %d %d %d' % (g('h_pre_k', i) & (2**64 - 1), g('h_pre_v', i) & (2**64 - 1), g('h_pre_d', i),
                                            g('h_pre_cnt', i) & (2**64 - 1), g('h_pre_age', i)))
+    if kind_line:
+        lines.append(kind_line)
     for c in range(ncalls):
         lines.append('call %d %d %d %d %d %d %d' % (g('h_op', c), g('h_k', c) & (2**64 - 1), g('h_v', c) & (2**64 - 1), g('h_a', c),
                                                     g('h_pk', c), g('h_ttl', c), g('h_now', c)))
@@ -359,7 +361,7 @@ def build_replay(cont, n, ts='no', variant='plain', extra_defs=()):
         return exe
     os.makedirs(d, exist_ok=True)
     cmd = ['g++', '-std=c++17'] + REPLAY_FLAGS[variant] + ['-DVF_REAL', '-DVF_RUNTIME_PROP', '-Dprivate=public',
-           '-DCONT_API="api_%s.hpp"' % cont, '-DHCAP=%d' % n, '-DTS=%s' % ts] + list(extra_defs) + [
+           '-DCONT_API="api_%s.hpp"' % cont, '-DHCAP=%d' % n, '-DTS=%s' % ts, '-DRMAX=3'] + list(extra_defs) + [
            '-I', os.path.join(ROOT, 'harness'), '-I', os.path.join(REPO, 'inc'),
            os.path.join(ROOT, 'replay', 'replay.cpp'), '-o', exe + '.tmp', '-lpthread']
     p = subprocess.run(cmd, capture_output=True, text=True)
@@ -371,19 +373,22 @@ def build_replay(cont, n, ts='no', variant='plain', extra_defs=()):
 
 def run_replay(exe, prop, hist_path, timeout=120):
     env = dict(os.environ)
-    env['ASAN_OPTIONS'] = 'detect_leaks=1:abort_on_error=0'
+    env['ASAN_OPTIONS'] = 'detect_leaks=1:abort_on_error=0:exitcode=77'
     try:
         p = subprocess.run([exe, str(prop), hist_path], capture_output=True, text=True, timeout=timeout, env=env)
     except subprocess.TimeoutExpired:
         return {'rc': -1, 'out': 'timeout', 'fails': [], 'done': False}
     fails = [(int(m.group(1)), int(m.group(2))) for m in re.finditer(r'CLAUSE-FAIL id=(\d+) step=(\d+)', p.stdout)]
-    return {'rc': p.returncode, 'out': p.stdout[-6000:] + p.stderr[-3000:], 'fails': fails, 'done': 'REPLAY-DONE' in p.stdout}
+    txt = p.stdout + p.stderr
+    ub = (p.returncode < 0 or p.returncode in (77, 134, 139) or 'AddressSanitizer' in txt or 'runtime error:' in txt or 'Error: attempt to' in txt
+          or 'LeakSanitizer' in txt)
+    return {'rc': p.returncode, 'out': p.stdout[-6000:] + p.stderr[-3000:], 'fails': fails, 'done': 'REPLAY-DONE' in p.stdout, 'ub': ub}
 
 
 def build_aux(kind, cont, n, method, ts='yes'):
     """real-build helper programs for the concurrency properties: 'race' (two threads under TSan) and 'sched'
     (nested schedules at lock granularity through an interposed pthread_mutex_lock)"""
-    src = {'race': 'race_driver.cpp', 'sched': 'sched_replay.cpp'}[kind]
+    src = {'race': 'race_driver.cpp', 'sched': 'sched_replay.cpp', 'spread': 'rr_spread.cpp'}[kind]
     key = sha(source_hash(), hash_tree([os.path.join(ROOT, 'replay')]), kind, cont, n, method, ts)
     d = os.path.join(BUILD, 'replay', key)
     exe = os.path.join(d, '%s_%s_n%d_m%d' % (kind, cont, n, method))
